@@ -210,7 +210,7 @@ def requests(rng, n):
     for _ in range(n):
         out.append({"subject": {"id": rng.choice(HOSTILE[:20]), "roles": rng.choice([[], ["admin"], [1, None, "x"], ["staff", "staff"]]),
                                 "attrs": rng.choice([{}, {"x": rng.choice(HOSTILE)}])},
-                    "action": rng.choice(["read", "read", "read", "write", "", "x"]),
+                    "action": rng.choice(["read", "read", "read", "write", "", "x", "read", "read", None, 5, ["read"], {"name": "read"}, True, 2.5]),
                     "resource": {"type": rng.choice(["doc", "doc", "doc", "doc", "img", None, 1, "", "*"]), "id": rng.choice(HOSTILE[:24]),
                                  "attrs": rng.choice([{}, {"k": rng.choice(HOSTILE)}])},
                     "context": rng.choice([{}, {"a": rng.choice(HOSTILE), "b": rng.choice(HOSTILE)},
